@@ -45,6 +45,16 @@ let dtys : (string * (dty * ty)) list =
       (name, (d, t))) table
 
 let shapes : (string * string) list = [
+  "ghs", "Role";
+  "gmsg", "Round,SetID,Message(Stage,BlockHash,Number,Signature,AuthorityID);Round,SetID,Vote(Hash,Number),Precommits(Hash,Number),AuthData(Signature,AuthorityID);Round,SetID,Number;Round,SetID;SetID,Round,PreVoteJustification(Vote(Hash,Number),Signature,AuthorityID),PreCommitJustification(Vote(Hash,Number),Signature,AuthorityID),Hash,Number";
+  "warp", "Begin";
+  "breq", "RequestedData,StartingBlock,Direction,Max";
+  "bresp", "Hash,Header(ParentHash,Number,StateRoot,ExtrinsicsRoot,Digest),Body,Receipt,MessageQueue,Justification;ParentHash,Number,StateRoot,ExtrinsicsRoot,Digest";
+  "bam", "ParentHash,Number,StateRoot,ExtrinsicsRoot,Digest,BestBlock";
+  "bah", "Roles,BestBlockNumber,BestBlockHash,GenesisHash";
+  "txm", "Extrinsics";
+  "lreq", "RemoteCallRequest(Block,Method,Data),RemoteReadRequest(Block,Keys),RemoteHeaderRequest(Block),RemoteReadChildRequest(Block,StorageKey,Keys),RemoteChangesRequest(FirstBlock,LastBlock,Min,Max,StorageKey)";
+  "lresp", "RemoteCallResponse(Proof),RemoteReadResponse(Proof),RemoteHeaderResponse(Header(ParentHash,Number,StateRoot,ExtrinsicsRoot,Digest)),RemoteChangesResponse(Max,Proof,Roots(First,Second),RootsProof)";
 ]
 
 let n_lt a b = (match N.compare a b with Lt -> true | _ -> false)
